@@ -767,7 +767,7 @@ PROPERTY = {
     "explanation": "One-term estimators (parity-weighted sums, variance) are proved for every frequency assignment, the basis rotations exactly "
                    "(R^dag Z R == P), and the frequency route is proved linear in the coefficients with the right per-term values (symbolic coefficients). "
                    "Route selection / forwarding of initial statevector and desired mid-circuit results is exercised from the AST on every route "
-                   "against an independent exact evaluation (the simulators themselves are assumed). Unbounded: the term loops of both frequency routes for operators with ANY number of terms (P1, loop cut, simulate and the one-term estimators as callee contracts). Bounded histories (O7): one backend / operator / circuit object with in-place updates between evaluations.",
+                   "against an independent exact evaluation (the simulators themselves are assumed). Unbounded: the term loops of both frequency routes for operators with ANY number of terms (P1, loop cut, simulate and the one-term estimators as callee contracts). Bounded histories (O7): one backend / operator / circuit object with in-place updates between evaluations. The GENERIC statevector route (Pauli-circuit overlap and its sampled variant), which no installed backend takes, is run on a backend whose native expectation value is hidden (O8, bounded).",
     "bounds": {"quick": "3-qubit preparations (4, one with a mid-circuit measurement) x 5 operators x 5 routes, cirq and sympy; histograms on <= 2 qubits", "thorough": "histograms on <= 3 qubits"},
     "assumptions": ["cirq / sympy simulators executed natively (assumed to return the state of the translated circuit; see C01)", "floats as reals; tolerance 1e-8 on simulated values",
                     "finite shots: only the deterministic case is checked exactly (no statistical tests)"],
